@@ -15,16 +15,23 @@ static std::vector<Decl> declarations()
         for (int rev = 0; rev < 2; rev++)
             for (int def : { 0, 1, 3 })
                 for (int env = 0; env < 2; env++)
-                    for (int company = 0; company < 2; company++)
+                    for (int company = 0; company < 4; company++)
                     {
+                        // company 2 / 3: the two toggles live in different groups (the other one in a named group that sorts
+                        // behind / the toggle under test in one that sorts before the default group), so bundles span groups
                         Decl D;
                         auto t = Item::tog("tog", sh ? "t" : "", rev, def);
                         if (env)
                             t.with_env("VP_T");
+                        if (company == 3)
+                            t.group = "Zgroup";
                         D.items.push_back(t);
                         if (company)
                         {
-                            D.items.push_back(Item::tog("note", "u", true)); // a name that begins with "no" but not with "no-"
+                            auto n = Item::tog("note", "u", true); // a name that begins with "no" but not with "no-"
+                            if (company == 2)
+                                n.group = "extra";
+                            D.items.push_back(n);
                             D.items.push_back(Item::opt("opt", "o"));
                         }
                         D.accepted = 1;
@@ -138,7 +145,7 @@ int main(int argc, char** argv)
         // (1c) the toggle (or its short name) is declared through a kept reference after the parser has been used, or the
         // parser object held the next declaration of the grid before
         for (size_t di = 0; di < decls.size(); di++)
-            for_all_vectors(alpha, a.asan() ? 1 : 2, ctx, [&](const std::vector<std::string>& av) { chk.used_before(ctx, decls[di], decls[(di + 5) % decls.size()], av, {}); });
+            for_all_vectors(alpha, a.asan() ? 1 : 2, ctx, [&](const std::vector<std::string>& av) { chk.used_before(ctx, decls[di], decls[(di + 9) % decls.size()], av, {}); });
         // (2) environment words through parse(), with and without the toggle on the command line
         for (auto& D : decls)
         {
@@ -249,7 +256,7 @@ int main(int argc, char** argv)
     rep.counters["bound_word_len"] = m;
     rep.counters["declarations"] = decls.size();
     rep.counters["env_words_through_parse"] = words.size();
-    rep.notes["rule"] = "48 toggle declarations x every vector of length <= bound over the 14-token occurrence alphabet; "
+    rep.notes["rule"] = "96 toggle declarations (incl. the two toggles in different groups) x every vector of length <= bound over the 14-token occurrence alphabet; "
                         "env words through parse(); closed world: every string of length <= bound over the vocabulary's "
                         "31 characters + all case variants + single edits; non-trivial = distinct (declaration, token-class "
                         "sequence, env class) with an option-like token or bound environment";
